@@ -826,9 +826,9 @@ func runC18Refresh(c c18Refresh) error {
 
 func TestC18Refresh(t *testing.T) {
 	vh.ShrinkTime("1s")
-	vh.Check(t, 2, 6, func(t *rapid.T) {
+	vh.Check(t, 3, 8, func(t *rapid.T) {
 		c := c18Refresh{TTLms: rapid.SampledFrom([]int{1200, 1500}).Draw(t, "ttl")}
-		switch rapid.IntRange(0, 2).Draw(t, "variant") {
+		switch rapid.SampledFrom([]int{0, 0, 1, 2}).Draw(t, "variant") {
 		case 1:
 			c.Idle, c.TTLms = true, rapid.SampledFrom([]int{60, 100}).Draw(t, "idlettl")
 		case 2:
